@@ -35,6 +35,8 @@ type scenario struct {
 	Keys   bool   `json:"with_keys"`
 	// BlockedWrites: the client transport does not accept writes (peer not reading): an alert write can only end through the deadline
 	BlockedWrites bool `json:"client_not_reading,omitempty"`
+	// Retry: after the return the backend sends a HelloRetryRequest and the client a second hello
+	Retry bool `json:"retry_after_return,omitempty"`
 }
 
 type observation struct {
@@ -52,10 +54,13 @@ type observation struct {
 	cancelAt    time.Duration
 	cancelled   bool
 	callsAfter  []vnet.Call
+	read2N      int
+	read2Err    error
+	didRetry    bool
 	helloLen    int
 }
 
-var helloRec, innerRec []byte
+var helloRec, innerRec, hello2Rec, inner2Rec, hrrRec []byte
 var theKey echx.KeyPair
 
 func init() {
@@ -65,6 +70,18 @@ func init() {
 		InnerBase: echx.StdInnerBase(), Padding: make([]byte, 4), EphLabel: "c10"}.Build()
 	helloRec = b.Outer.Record()
 	innerRec = tlsref.Record(22, 0x0303, b.Expected.Msg())
+	// a retried hello (after HelloRetryRequest) sealed with the same HPKE context
+	outer2, idx2 := echx.StdOuter("public.example", tlsref.DetBytes("sid", 32), 99)
+	for i, e := range outer2.Exts {
+		if e.Type == tlsref.ExtKeyShare {
+			outer2.Exts[i] = tlsref.KeyShare(65)
+		}
+	}
+	b2 := echx.Spec{Key: theKey, Suite: tlsref.Suite{KDF: 1, AEAD: 1}, Outer: outer2, EchIdx: idx2, EncInner: echx.StdEncInner("inner.secret.example", []string{"h2"}, true),
+		InnerBase: echx.StdInnerBase(), Padding: make([]byte, 4), EphLabel: "c10"}.BuildWith(b.Sealer, false)
+	hello2Rec = b2.Outer.Record()
+	inner2Rec = tlsref.Record(22, 0x0303, b2.Expected.Msg())
+	hrrRec = echx.HRRRecord(tlsref.DetBytes("sid", 32))
 }
 
 func run(sc scenario, choose vs.Chooser, traceOn bool) (*observation, *vs.Sched, *vnet.Conn) {
@@ -76,6 +93,14 @@ func run(sc scenario, choose vs.Chooser, traceOn bool) (*observation, *vs.Sched,
 		var cancel context.CancelFunc
 		if sc.Cancel == "deadline2" {
 			ctx, cancel = vs.WithTimeout(context.Background(), 2*unit)
+		} else if sc.Cancel == "deadline5-cancelled-at-1" {
+			ctx, cancel = vs.WithTimeout(context.Background(), 5*unit)
+			c2 := cancel
+			vs.GoNamed("canceller", func() {
+				vs.Sleep(1 * unit)
+				ob.cancelAt, ob.cancelled = vs.Elapsed(), true
+				c2()
+			})
 		} else {
 			ctx, cancel = vs.WithCancel(context.Background())
 		}
@@ -125,7 +150,19 @@ func run(sc scenario, choose vs.Chooser, traceOn bool) (*observation, *vs.Sched,
 		buf := make([]byte, 70000)
 		ob.readN, ob.readErr = conn.Read(buf)
 		ob.readAt = vs.Elapsed()
-		_, ob.writeErr = conn.Write(tlsref.Record(23, 0x0303, []byte("hello client")))
+		if sc.Keys && sc.Retry {
+			// the backend answers with a HelloRetryRequest and the client sends its second hello: the context must not matter any more
+			if _, err := conn.Write(hrrRec); err != nil {
+				ob.writeErr = err
+			}
+			t.Feed(hello2Rec)
+			ob.read2N, ob.read2Err = conn.Read(buf)
+			ob.didRetry = true
+		}
+		_, ob.writeErr = firstErr(ob.writeErr, func() error {
+			_, e := conn.Write(tlsref.Record(23, 0x0303, []byte("hello client")))
+			return e
+		})
 		ob.didIO = true
 		// let any straggler run, then look again
 		vs.Sleep(10 * unit)
@@ -168,6 +205,8 @@ func monitor(sc scenario, ob *observation, s *vs.Sched, t *vnet.Conn) (key, what
 		ctxEnds, ctxEndAt = true, map[string]time.Duration{"t0": 0, "t1": unit, "t3": 3 * unit}[sc.Cancel]
 	case "deadline2":
 		ctxEnds, ctxEndAt = true, 2*unit
+	case "deadline5-cancelled-at-1":
+		ctxEnds, ctxEndAt = true, 1*unit
 	}
 	if ob.newConnErr != nil {
 		// (a) failing is only legitimate if the context ended while NewConn was still reading (or at the same instant)
@@ -205,6 +244,9 @@ func monitor(sc scenario, ob *observation, s *vs.Sched, t *vnet.Conn) (key, what
 		if ob.readErr != nil || ob.readN != wantN {
 			return "read-after-return-fails", fmt.Sprintf("Conn.Read after a successful NewConn: n=%d err=%v (want the %d-byte hello)", ob.readN, ob.readErr, wantN)
 		}
+		if ob.didRetry && (ob.read2Err != nil || ob.read2N != len(inner2Rec)) {
+			return "retried-hello-after-return-fails", fmt.Sprintf("after a successful NewConn and a HelloRetryRequest, reading the second hello: n=%d err=%v (want the %d-byte inner hello)", ob.read2N, ob.read2Err, len(inner2Rec))
+		}
 		if ob.writeErr != nil {
 			return "write-after-return-fails", fmt.Sprintf("Conn.Write after a successful NewConn: %v", ob.writeErr)
 		}
@@ -215,12 +257,15 @@ func monitor(sc scenario, ob *observation, s *vs.Sched, t *vnet.Conn) (key, what
 func scenarios() []scenario {
 	var out []scenario
 	for _, h := range []string{"buffered", "late", "two-fragments", "never"} {
-		for _, c := range []string{"never", "t0", "t1", "t3", "after-return", "deadline2"} {
+		for _, c := range []string{"never", "t0", "t1", "t3", "after-return", "deadline2", "deadline5-cancelled-at-1"} {
 			if h == "never" && (c == "never" || c == "after-return") {
 				continue // NewConn legitimately blocks forever
 			}
 			for _, k := range []bool{true, false} {
 				out = append(out, scenario{Hello: h, Cancel: c, Keys: k})
+				if k && h != "never" {
+					out = append(out, scenario{Hello: h, Cancel: c, Keys: k, Retry: true})
+				}
 			}
 			// the context ends while NewConn is blocked and the client does not read either: NewConn must still fail promptly
 			if (h == "never" || h == "two-fragments") && (c == "t1" || c == "deadline2" || c == "t0") {
@@ -359,7 +404,7 @@ func Run(r *ev.Run, replay string) {
 		return
 	}
 	b := bound(r.Tier)
-	r.Rule(fmt.Sprintf("E3 stateless exploration of the real NewConn (sources rewritten into scheduler shims at check time) in virtual time: scenarios = hello {already buffered, arriving at t=1, in two fragments at t=0 and t=2, never} x context {never ends, cancelled by another thread at t=0/1/3, cancelled by the caller right after NewConn returned, deadline at t=2} x keys {yes,no}; threads = caller (NewConn, then one Read and two Writes on the result), canceller, client, and the watcher NewConn spawns; ALL schedules with at most %d deviations (preemption / non-canonical thread pick, non-first ready select case, timer order). Monitors: NewConn fails only if the context ended before the hello was complete and then no later than that instant; after a successful return no deadline call starts, no deadline is left set, and the caller's I/O succeeds. distinct = distinct scenarios", b))
+	r.Rule(fmt.Sprintf("E3 stateless exploration of the real NewConn (sources rewritten into scheduler shims at check time) in virtual time: scenarios = hello {already buffered, arriving at t=1, in two fragments at t=0 and t=2, never} x context {never ends, cancelled by another thread at t=0/1/3, cancelled by the caller right after NewConn returned, deadline at t=2, deadline at t=5 cancelled at t=1} x keys {yes,no} x {plain use, HelloRetryRequest + second hello after the return}; threads = caller (NewConn, then Read/Write on the result), canceller, client, and the watcher NewConn spawns; ALL schedules with at most %d deviations (preemption / non-canonical thread pick, non-first ready select case, timer order). Monitors: NewConn fails only if the context ended before the hello was complete and then no later than that instant; after a successful return no deadline call starts, no deadline is left set, and the caller's I/O succeeds. distinct = distinct scenarios", b))
 	r.Assume("computation takes zero virtual time; sequentially consistent memory at synchronisation granularity", "the transport is a scheduler-aware fake whose Read honours deadlines")
 	explore(r, scenarios(), b, "c10")
 }
